@@ -71,6 +71,10 @@ def flatten(n, resolve=None, depth=0):
                     its.extend(f(e))
                 return [('join', sep, its, items)]
         return [('join', sep, [('expr', items)], items)]
+    if isinstance(n, ast.Call) and isinstance(n.func, ast.Attribute) and n.func.attr in ('strip', 'rstrip', 'lstrip', 'split', 'splitlines') \
+            and isinstance(n.func.value, (ast.Name, ast.Call, ast.BinOp, ast.JoinedStr)):
+        # content-preserving string methods: the text is that of the receiver
+        return f(n.func.value)
     if isinstance(n, ast.Name) and resolve is not None:
         r = resolve(n.id, 'str')
         if r is not None:
@@ -147,3 +151,47 @@ def show(frags):
         else:
             out.append('(' + ' | '.join(show(a) for a in fr[1]) + ')')
     return ' '.join(out)
+
+
+def universe(func, methods=None, depth=2):
+    """expressions whose text can flow into the value returned by `func`: the returned expressions, everything assigned or
+    appended to a name that occurs as a string leaf of one of them, and the same for in-class helpers called in leaf position"""
+    from . import pyfront as P
+    flow = set()
+    exprs = []
+    for n in P.walk_no_nested(func):
+        if isinstance(n, ast.Return) and n.value is not None:
+            exprs.append(n.value)
+    seen = set()
+    changed = True
+    while changed:
+        changed = False
+        for e in list(exprs):
+            if id(e) in seen:
+                continue
+            seen.add(id(e))
+            for leaf in leaves(flatten(e)):
+                x = leaf[1] if leaf[0] == 'expr' else None
+                if isinstance(x, ast.Name) and x.id not in flow:
+                    flow.add(x.id)
+                    changed = True
+                elif isinstance(x, ast.Call) and methods and depth > 0:
+                    nm = P.call_name(x) or ''
+                    if nm.startswith('self.') and nm[5:] in methods and methods[nm[5:]] is not func:
+                        for sub in universe(methods[nm[5:]], methods, depth - 1)[0]:
+                            if sub not in exprs:
+                                exprs.append(sub)
+                                changed = True
+        for n in P.walk_no_nested(func):
+            if isinstance(n, (ast.Assign, ast.AugAssign, ast.AnnAssign)):
+                tg = n.targets if isinstance(n, ast.Assign) else [n.target]
+                if any(isinstance(t, ast.Name) and t.id in flow for t in tg) and n.value is not None and id(n.value) not in seen and n.value not in exprs:
+                    exprs.append(n.value)
+                    changed = True
+            elif isinstance(n, ast.Call) and isinstance(n.func, ast.Attribute) and n.func.attr in ('append', 'extend', 'insert') and isinstance(n.func.value, ast.Name) \
+                    and n.func.value.id in flow:
+                for a_ in n.args:
+                    if id(a_) not in seen and a_ not in exprs:
+                        exprs.append(a_)
+                        changed = True
+    return exprs, flow
